@@ -8,10 +8,17 @@ partial def loop (h : IO.FS.Stream) (f : String → String) : IO Unit := do
   IO.println (f line)
   loop h f
 
+def predFiles (f : String → String → String) (casesPath obsPath : String) : IO Unit := do
+  let cases ← IO.FS.lines casesPath
+  let obs ← IO.FS.lines obsPath
+  for i in [0:cases.size] do
+    IO.println (f cases[i]! (obs[i]?.getD ""))
+
 def main (args : List String) : IO UInt32 := do
   let stdin ← IO.getStdin
   match args with
   | ["run", "wire"] => loop stdin wireLine; return 0
+  | ["pred", "wire", prop, casesPath, obsPath] => predFiles (wirePred prop) casesPath obsPath; return 0
   | _ =>
-    IO.eprintln "usage: vmodel run <suite> | vmodel pred <Cxx>   (cases on stdin, one per line)"
+    IO.eprintln "usage: vmodel run <suite> < cases | vmodel pred <suite> <Cxx> <cases-file> <obs-file>"
     return 2
